@@ -42,6 +42,8 @@ def bins(relpath, tag):
                 'and result[j][1] - result[j][0] == bin_size and result[j][0] % sliding_increment == 0))',
             'no_bin_twice':
                 'forall(j, implies(0 <= j and j < seqlen(result) - 1, result[j][0] < result[j+1][0]))',
+            'bins_in_increasing_order':
+                'forall((j1, j2), implies(0 <= j1 and j1 < j2 and j2 < seqlen(result), result[j1][0] < result[j2][0]))',
             'every_window_containing_point_is_returned':
                 # witness given explicitly (j = i - id of the first returned window) to keep the VC exists-free
                 'forall(i, implies(i*sliding_increment <= point and point < i*sliding_increment + bin_size, '
@@ -66,4 +68,9 @@ def extra_units():
     u = copy.copy(c11.assign_binned)
     u.prop = PROP
     u.name = 'assignReads.bin_increment[-bin, no sliding]'
-    return [u]
+    out = [u]
+    for v in c11.assign_sliding:
+        w = copy.copy(v)
+        w.prop = PROP
+        out.append(w)
+    return out
